@@ -20,10 +20,15 @@ Definition eclass_eqb (a b : eclass) : bool :=
   | _, _ => false
   end.
 
+(** Correspondence is compared on what the property talks about: which subject was created, or that the
+    request was rejected with an error (of whatever kind: the error kinds are C04's and C12's subject; the
+    class stays in the observation for the record), or that the authenticator broke (panic, no answer). *)
+Definition broken (k : eclass) : bool := match k with KPanic | KOther => true | _ => false end.
+
 Definition obs_eqb (a b : obs) : bool :=
   match a, b with
   | OSubject s, OSubject s' => String.eqb s s'
-  | OError k, OError k' => eclass_eqb k k'
+  | OError k, OError k' => Bool.eqb (broken k) (broken k')
   | _, _ => false
   end.
 
@@ -33,7 +38,7 @@ Definition obs_eqb (a b : obs) : bool :=
 Definition prop_holds (c : case) : bool :=
   match c_obs c, spec_accepts (c_cf c) (c_keys c) (secs (c_now c)) (c_cred c) with
   | OSubject s, Some s' => String.eqb s s' && c_attrs_ok c
-  | OError _, None => true
+  | OError k, None => negb (broken k)
   | _, _ => false
   end.
 
@@ -79,17 +84,18 @@ Fixpoint prop_steps (pre : list kstep) (l : list hstep) : bool :=
     let ws := if fresh s then [s_env s] else worlds pre s in
     match h_obs x with
     | OSubject sub => existsb (fun env => option_eqb String.eqb (spec_in s env) (Some sub)) ws && h_attrs x
-    | OError _ => negb (forallb (fun env => is_some (spec_in s env)) ws)
+    | OError k => negb (broken k) && negb (forallb (fun env => is_some (spec_in s env)) ws)
     end && prop_steps (pre ++ [s]) r
   end.
 
-Definition check_hist (f1 f2 : bool) (c : hcase) : verdict :=
+Definition check_hist (f1 f2 f4 : bool) (c : hcase) : verdict :=
   let steps := map h_step (hc_steps c) in
-  {| v_corr := list_eqb obs_eqb (map obs_of (run_history f1 f2 steps)) (map h_obs (hc_steps c));
+  {| v_corr := list_eqb obs_eqb (map obs_of (run_history f1 f2 f4 steps)) (map h_obs (hc_steps c));
      v_prop := prop_steps [] (hc_steps c);
      v_guards := guards [(1%Z, existsb (fun s => guard_F1 (s_cred s)) steps && negb f1);
                          (2%Z, existsb (fun s => guard_F2 (s_cred s)) steps && negb f2);
-                         (3%Z, existsb (fun s => guard_F3 (s_cred s)) steps && f1)] |}.
+                         (3%Z, existsb (fun s => guard_F3 (s_cred s)) steps && f1);
+                         (4%Z, guard_F4 f1 f2 steps && negb f4)] |}.
 
 Definition hs cf con tpl env now cred o attrs :=
   {| h_step := {| s_cf := cf; s_cache_on := con; s_templated := tpl; s_env := env; s_now := secs now; s_cred := cred |};
